@@ -368,8 +368,8 @@ func renderKinds(kinds []string, r *rand.Rand) string {
 }
 
 func checkC04(c *core.Ctx) {
-	c.Rule("differential against an independent recogniser (reference tokenizer + Earley over the rules extracted from the current chords.y): (1) every string over a 21-symbol alphabet (incl. a non-ASCII digit and CR) up to length 4 (quick) / 5 (thorough); (2) every sequence of token kinds up to length 4 / 6 rendered with canonical lexemes; (3) every grammar sentence up to 11 / 13 tokens plus all single-token deletions, insertions, substitutions, swaps, duplications and every proper byte prefix; (4) long generated pieces with random trivia whose tree is compared field by field with what was written; (5) goyacc regenerated from chords.y and compared byte for byte with the committed parser. " +
-		"Library level (ast.Parse in a worker process) with a seeded sample repeated through `crd text parse`. non-trivial = input with >= 3 tokens; distinct by input string")
+	c.Rule("differential against an independent recogniser (reference tokenizer + Earley over the rules extracted from the current chords.y): (1) every string over a 21-symbol alphabet (incl. a non-ASCII digit and CR) up to length 4 (quick) / 5 (thorough); (2) every sequence of token kinds up to length 4 / 6 rendered with canonical lexemes; (3) every grammar sentence up to 11 / 13 tokens plus all single-token deletions, insertions, substitutions, swaps, duplications and every proper byte prefix; (4) long generated pieces with random trivia whose tree is compared field by field with what was written; (4b) runes sharing their low byte with a character of the language (7 planes x 36 characters x 16 positions), NUMBER tokens beyond 64 bits, megabyte texts; (5) goyacc regenerated from chords.y and compared byte for byte with the committed parser. " +
+		"Library level (ast.Parse in a worker process) with a seeded sample repeated through `crd text parse` over four input paths (stdin, -, FILE, FILE that is a pipe). non-trivial = input with >= 3 tokens; distinct by input string")
 	c.Assume("grammar.Tokenize implements the documented tokenisation (DESIGN.md section 4, C04)", "grammar.ParseYacc extracts the rules of the current chords.y", "Earley recogniser", "token positions and numeric token codes are not part of the property")
 
 	g, err := grammar.LoadYacc(filepath.Join(c.Repo, "input", "ast", "chords.y"))
